@@ -12,6 +12,19 @@ let register (reg : string -> (string list -> string) -> unit) : unit =
     | _ -> "?") in
   reg "dwt_fwd1d" (one_d DwtModel.fwd53);
   reg "dwt_inv1d" (one_d DwtModel.inv53);
+  (* many short signals in one request: "<even01> s1;s2;..." -> "F1/I1/A1;F2/I2/A2;..." with
+     F = fwd s, I = inv F, A = inv s (each computed by the ops above) *)
+  reg "dwt_1d_batch" (fun a -> match a with
+    | [e; sigs] ->
+      let even = bool_of_string01 e in
+      String.concat ";" (L.map (fun xs ->
+        let l = zlist_of_string xs in
+        if DwtModel.dwt1d_panics even l then "panic" else
+        let f = DwtModel.fwd53 even l in
+        String.concat "/" [string_of_zlist f; string_of_zlist (DwtModel.inv53 even f);
+                           string_of_zlist (DwtModel.inv53 even l)])
+        (String.split_on_char ';' sigs))
+    | _ -> "?");
   let two_d f = (fun a -> match a with
     | [w; h; stride; er; ec; xs] ->
       let wi = int_of_string w and hi = int_of_string h and si = int_of_string stride in
